@@ -26,16 +26,16 @@ def known_probe(chk):
     mgmt.run_cases(chk, kind, [(rows, True, ops)], spec_check, label="known-finding-probe", compare_model=False)
 
 
-def fresh_results(kind, stores_obs, qops):
+def fresh_results(kind, stores_obs, qops, impl_kwargs=None):
     rows = [(0, r) for r in stores_obs[3]] + [(1, r) for r in stores_obs[4]] + [(2, r) for r in stores_obs[5]]
     try:
-        fresh = mgmt.Impl(kind.with_(adapter=True, watcher=0), rows, True)
+        fresh = mgmt.Impl(kind.with_(adapter=True, watcher=0), rows, True, **(impl_kwargs or {}))
     except Exception as exc:  # noqa  (the current policy cannot be loaded by a fresh enforcer: e.g. a short g rule)
         return None
     return [fresh.step(op)[0] for op in qops]
 
 
-def spec_check(kind, rows, lf, ops, obs, impl):
+def spec_check(kind, rows, lf, ops, obs, impl, impl_kwargs=None):
     out = []
     i = 0
     n = len(ops)
@@ -44,7 +44,7 @@ def spec_check(kind, rows, lf, ops, obs, impl):
             j = i
             while j < n and ops[j][0] in QUERY_OPS:
                 j += 1
-            exp = fresh_results(kind, obs[i], ops[i:j])
+            exp = fresh_results(kind, obs[i], ops[i:j], impl_kwargs)
             if exp is not None:
                 for k in range(i, j):
                     if obs[k][0] != exp[k - i]:
@@ -205,6 +205,150 @@ def targeted_cases_g2(kind):
             yield (p0, True, ops)
 
 
+# ----------------------------------------------------------------------------- reloads of an edited store; refused reloads
+W_STORE = dict(p_add=2, p_add_many=1, p_remove=1, p_remove_many=0.5, p_remove_filtered=0.5, p_update=0.5, p_update_many=0,
+               p_update_filtered=0, g_add=6, g_add_many=3, g_remove=5, g_remove_many=2, g_remove_filtered=2, rbac=4,
+               clear=0, load=1, save=0.5, build=0.5, flags=0, query=3, probe=1)
+
+
+def spec_check_store(kind, rows, lf, ops, obs, impl):
+    return spec_check(kind, rows, lf, ops, obs, impl)
+
+
+spec_check_store.case_extra = dict(variant="store", model_compared=False)
+
+
+def store_cases(rng, kind, n):
+    """"clearing and reloading": the store the enforcer reloads was edited behind its back (rows gained and lost, a role
+    definition losing all its rows), or the reload is REFUSED (a malformed grouping row behind new ones, a failing
+    adapter) - the policy in force is then the old one, and every decision and role query must still equal a fresh
+    enforcer holding it.  Full probe after every reload."""
+    uni = mgmt.Universe(kind)
+    probe = mgmt.probe_ops(kind, uni)
+    for _ in range(n):
+        gen = mgmt.Gen(rng, kind, W_STORE)
+        rows = gen.rows(rng.randint(0, 8))
+        ops = list(probe) if rng.random() < 0.5 else []
+        for _ in range(rng.randint(2, 8)):
+            if rng.random() < 0.35:
+                ops += mgmt.store_step(rng, kind, gen, len(rows), probe)
+            else:
+                ops += gen.op()
+        ops += probe
+        yield (rows, True, mgmt.drop_prefix_aliases(kind, rows, ops))
+
+
+# ----------------------------------------------------------------------------- a domain matching function on both sides
+import casbin                                                                  # noqa: E402
+from casbin import util as _util                                               # noqa: E402
+
+STAR = mgmt.ATOMS.a("*")          # interned at import time so that replays decode the same atom
+
+
+class EnforcerWithDomainMatcher(casbin.Enforcer):
+    """util.key_match registered as the DOMAIN matching function of g: an assignment recorded for the domain "*" holds
+    in every domain"""
+    def __init__(self, *a, **k):
+        super().__init__(*a, **k)
+        self.add_named_domain_matching_func("g", _util.key_match)
+
+
+DM_KW = dict(enforcer_cls=EnforcerWithDomainMatcher)
+
+
+def spec_check_dm(kind, rows, lf, ops, obs, impl):
+    """the fresh comparison enforcer gets the same domain matching function"""
+    return spec_check(kind, rows, lf, ops, obs, impl, impl_kwargs=DM_KW)
+
+
+spec_check_dm.case_extra = dict(variant="domain-matcher", model_compared=False)
+
+
+def shared_pairs(kind, rows, ops):
+    """the same (user, role) pair recorded for the pattern domain "*" AND for a concrete domain: in the cached manager of
+    the concrete domain both assignments are ONE uncounted link (the domain-matching analogue of the listed findings
+    C04/overlong-rules-share-a-link and C14-F14; reported to the coordinator, excluded from this stratum)"""
+    seen = {}
+    for pt, r in mgmt.g_rules_mentioned(kind, rows, ops):
+        if pt == 1 and len(r) >= 3:
+            seen.setdefault((r[0], r[1]), set()).add(r[2])
+    return any(STAR in ds and len(ds) > 1 for ds in seen.values())
+
+
+def drop_shared_pairs(kind, rows, ops):
+    rows2 = []
+    for row in rows:
+        if not shared_pairs(kind, rows2 + [row], []):
+            rows2.append(row)
+    out = []
+    for op in ops:
+        if ((op[0] in (1, 2) and op[1] == 1) or op[0] == 19) and shared_pairs(kind, rows2, out + [op]):
+            continue
+        out.append(op)
+    return rows2, out
+
+
+def dm_cases(rng, kind, n):
+    """domain model; the enforcer under test AND the fresh reference enforcer have util.key_match as domain matching
+    function.  Assignments are recorded for d1, d2 and for the pattern domain "*"; requests and role queries are made
+    in d1, d2 and literally in "*" (so that the pattern domain has a cached manager of its own, like any other)."""
+    for _ in range(n):
+        gen = mgmt.Gen(rng, kind, W)
+        gen.uni.doms = gen.uni.doms + [STAR]
+        rows = gen.rows(rng.randint(0, 8))
+        rows, ops = drop_shared_pairs(kind, rows, mgmt.drop_prefix_aliases(kind, rows, gen.history(rng.randint(4, 16))))
+        yield (rows, True, ops)
+
+
+def dm_targeted_cases(kind):
+    """every pair of grouping calls over {(alice, admin, "*"), (editor, admin, d1), (bob, admin, "*")}, preceded by a probe
+    (all three domains cached) and followed by one after each call"""
+    import itertools
+    A = mgmt.ATOMS.a
+    uni = mgmt.Universe(kind)
+    uni.doms = uni.doms + [STAR]
+    probe = mgmt.probe_ops(kind, uni)
+    l1, l2, l3 = [A("alice"), A("admin"), STAR], [A("editor"), A("admin"), A("d1")], [A("bob"), A("admin"), STAR]
+    alpha = [(1, 1, l1), (3, 1, l1), (1, 1, l2), (3, 1, l2), (2, 1, [l1, l3]), (4, 1, [l1, l3]), (5, 1, 2, [STAR]),
+             (10, A("alice")), (31,)]
+    p0 = [(0, [A("admin"), A("d1"), A("data1"), A("read")]), (0, [A("admin"), A("d2"), A("data2"), A("write")]), (1, l1)]
+    for first in (True, False):
+        for seq in itertools.product(alpha, repeat=2):
+            ops = list(probe) if first else []
+            for o in seq:
+                ops.append(o)
+                ops.extend(probe)
+            yield (p0, True, ops)
+
+
+def run_store_and_matcher(chk, n):
+    rng = chk.rng
+    strata = chk.extra.setdefault("strata", {})
+    for kn in ("rbac", "dom", "rbac_res"):
+        kind = mgmt.KINDS[kn]
+        cases = list(store_cases(rng, kind, n))
+        mgmt.run_cases(chk, kind, cases, spec_check_store, label=f"store-reload-{kn}", compare_model=False)
+        strata[f"store_reload_{kn}"] = len(cases)
+    kind = mgmt.KINDS["dom"]
+    cases = list(dm_targeted_cases(kind))
+    mgmt.run_cases(chk, kind, cases, spec_check_dm, label="domain-matcher-targeted", impl_kwargs=DM_KW, compare_model=False)
+    strata["domain_matcher_targeted"] = len(cases)
+    cases = list(dm_cases(rng, kind, n))
+    mgmt.run_cases(chk, kind, cases, spec_check_dm, label="domain-matcher-random", impl_kwargs=DM_KW, compare_model=False)
+    strata["domain_matcher_random"] = len(cases)
+
+
+def replay(chk):
+    import json
+    c = (json.load(open(chk.replay_file)).get("case") or {})
+    v = c.get("variant")
+    if v in ("store", "domain-matcher"):
+        chk.oracle = None                 # out-of-band store edits / matching functions are outside the Mgmt model
+    if v == "domain-matcher":
+        return mgmt.replay_case(chk, spec_check_dm, impl_kwargs=DM_KW)
+    return mgmt.replay_case(chk, spec_check)
+
+
 def run(chk, n_random, targeted_len):
     rng = chk.rng
     known_probe(chk)
@@ -244,6 +388,7 @@ def run(chk, n_random, targeted_len):
             cases.append((rows, True, g.history(rng.randint(4, 18))))
         mgmt.run_cases(chk, kind, cases, spec_check_cfg, label=f"config-{kn}")
         chk.extra["strata"][f"config_{kn}"] = len(cases)
+    run_store_and_matcher(chk, max(40, n_random // 2))
 
 
 def main():
@@ -253,17 +398,26 @@ def main():
                 "sequences of <= 2 (quick) / 3 (thorough) calls from a 12-call alphabet with a full probe after each call, "
                 "plain RBAC and domain models; random histories on RBAC / resource roles / domains / deny models; "
                 "non-trivial = at least one mutating call; distinct by (kind, mutating calls)")
+    chk.rule += ("; store strata: histories in which the store is edited out of band (rows gained/lost, a role definition "
+                 "emptied) and reloaded, or the reload is refused (malformed grouping row, failing adapter), full probe after "
+                 "every reload, RBAC / domain / resource-role models; domain-matcher strata: the domain model with "
+                 "util.key_match as domain matching function on the enforcer under test AND on the fresh reference enforcer, "
+                 "assignments recorded for d1, d2 and the pattern domain '*', requests and role queries in all three (all "
+                 "pairs of calls from a 9-call alphabet with probes, and random histories); implementation-level spec only")
     chk.assumptions = [
+        "domain-matcher strata only: no (user, role) pair is recorded both for '*' and for a concrete domain (both assignments "
+        "would be one uncounted link in the concrete domain's cached manager - reported separately)",
         "auto_build_role_links stays on (the property's own premise); grouping rules have at least the declared arity; rules "
         "with MORE fields are generated too, but two rules sharing their declared-arity prefix are the listed finding "
         "C04/overlong-rules-share-a-link (probed on every run, excluded from the random strata)",
-        "no matching functions registered (pattern assignments are C14)",
+        "no role-name matching functions registered (pattern assignments are C14); a DOMAIN matching function only in the "
+        "domain-matcher strata, where the fresh reference enforcer gets the same one",
         "the fresh reference enforcer is a real casbin.Enforcer loading the current policy through an in-memory adapter",
     ]
     chk.trusted = ["hand-written models coq/theories/{Policy,RoleGraph,Mgmt}.v tied by the differential history correspondence"]
     chk.build(oracle_name="Mgmt")
     if chk.replay_file:
-        return mgmt.replay_case(chk, spec_check)
+        return replay(chk)
     if chk.tier == "thorough":
         run(chk, 1200, 3)
     else:
